@@ -16,6 +16,7 @@ package main
 
 import (
 	"fmt"
+	"go/token"
 	"go/types"
 	"sort"
 	"strings"
@@ -137,6 +138,9 @@ func (v *vc) balKey(fr *frame, st *state, arg ssa.Value) (string, bool) {
 	if a := fr.addrs[arg]; a != nil {
 		switch a.kind {
 		case aField:
+			if fa, ok := arg.(*ssa.FieldAddr); ok {
+				return v.balRef(fr, st, fa.X), true
+			}
 			return a.base, true
 		case aPath:
 			r := a.root
@@ -158,11 +162,63 @@ func (v *vc) balKey(fr *frame, st *state, arg ssa.Value) (string, bool) {
 	case *ssa.Alloc, *ssa.FreeVar, *ssa.Global:
 		return "0", true
 	}
-	t := v.val(fr, st, arg)
+	t := v.balRef(fr, st, arg)
 	if t == "" {
 		return "", false
 	}
 	return t, true
+}
+
+// balRef: the object a pointer value denotes, for the purpose of telling mutexes apart. A pointer that is
+// loaded again from the same place (a local variable that is assigned once, a captured variable, a pointer
+// field of an object: `p.tracker.mu`) denotes the same object each time - the heap model would forget that
+// across any call it cannot see into, and Lock / Unlock pairs on such a path would look like two mutexes.
+// For pointer fields this is an assumption (the field is not re-pointed between Lock and Unlock), listed.
+func (v *vc) balRef(fr *frame, st *state, val ssa.Value) string {
+	if u, ok := val.(*ssa.UnOp); ok && u.Op == token.MUL {
+		switch src := u.X.(type) {
+		case *ssa.FieldAddr:
+			stt := src.X.Type().Underlying().(*types.Pointer).Elem()
+			if s, ok := stt.Underlying().(*types.Struct); ok {
+				tn := "anon"
+				if nt, ok := namedStruct(stt); ok {
+					tn = nt.Obj().Name()
+				}
+				uf := "balvia_" + sanitizeGhost(tn+"_"+s.Field(src.Field).Name())
+				if !v.balDecls[uf] {
+					if v.balDecls == nil {
+						v.balDecls = map[string]bool{}
+					}
+					v.balDecls[uf] = true
+					v.items = append(v.items, item{kind: itDecl, text: fmt.Sprintf("(declare-fun %s (Int) Int)", uf)})
+				}
+				v.trusted["lock balance: a pointer field through which a mutex is reached (x.f.mu) is assumed not to be re-pointed between the Lock and the Unlock of one function"] = true
+				return fmt.Sprintf("(%s %s)", uf, v.balRef(fr, st, src.X))
+			}
+		case *ssa.Alloc:
+			if singleEntryStore(src, src.Parent()) {
+				return v.balConst("balcell_" + sanitizeGhost(src.Parent().Name()+"_"+src.Comment))
+			}
+		case *ssa.FreeVar:
+			for i, fv := range src.Parent().FreeVars {
+				if fv == src && immutableCapture(src.Parent(), i) {
+					return v.balConst("balcell_" + sanitizeGhost(src.Name()))
+				}
+			}
+		}
+	}
+	return v.val(fr, st, val)
+}
+
+func (v *vc) balConst(name string) string {
+	if v.balDecls == nil {
+		v.balDecls = map[string]bool{}
+	}
+	if !v.balDecls[name] {
+		v.balDecls[name] = true
+		v.items = append(v.items, item{kind: itDecl, text: fmt.Sprintf("(declare-const %s Int)", name)})
+	}
+	return name
 }
 
 // onBalanceCall: a sync.(RW)Mutex call in a function under the sweep.
@@ -232,7 +288,7 @@ func (v *vc) balanceAtReturn(fr *frame, st *state, site string) {
 // balanceAtBackEdge: an iteration leaves every mutex as it was when the loop was entered (the ghosts are not
 // havocked at loop heads: this obligation is what justifies that).
 func (v *vc) balanceAtBackEdge(fr *frame, st *state, entry *state, site string) {
-	if v.fc == nil || !v.fc.sweep || entry == nil {
+	if v.fc == nil || !v.fc.sweep || entry == nil || v.fc.lockHandoff != "" {
 		return
 	}
 	for _, g := range balGhostKeys(st) {
@@ -242,4 +298,13 @@ func (v *vc) balanceAtBackEdge(fr *frame, st *state, entry *state, site string) 
 		}
 		v.oblige(st, "guard", "iteration_leaves_"+strings.TrimPrefix(g, balPrefix)+"_as_at_loop_entry", site, fmt.Sprintf("(= %s %s)", st.ghost[g], e0), []string{"C19"})
 	}
+}
+
+func (e *engine) isTargetPkg(path string) bool {
+	for _, d := range targetDirs {
+		if path == modPath+"/"+d {
+			return true
+		}
+	}
+	return false
 }
